@@ -545,6 +545,149 @@ theorem feed_chunks {d : Dec α} {e : α → Bytes} (hnil : d [] = .incomplete)
       groups.length = chunks.length :=
   feed_chunks_aux hnil B chunks as [] henc hnil (by simpa using hc) hB
 
+/-! ### The inbox bound
+
+The inbox bound must only ever be compared with the UNDECODED remainder: the bytes of the stream received
+so far minus the frames that are complete in them. -/
+
+/-- Undecoded remainder (in bytes) after `n` bytes of a stream whose items have lengths `lens`. -/
+def pendingLen : List Nat → Nat → Nat
+  | [], n => n
+  | l :: ls, n => if l ≤ n then pendingLen ls (n - l) else n
+
+/-- Every chunk fits the inbox together with the undecoded remainder it is appended to (`n` = bytes
+received before the first of `chunks`). -/
+def FitsInbox (B : Nat) (lens : List Nat) : Nat → List Bytes → Prop
+  | _, [] => True
+  | n, c :: cs => pendingLen lens n + c.length ≤ B ∧ FitsInbox B lens (n + c.length) cs
+
+theorem pendingLen_lt {l : Nat} {ls : List Nat} {n : Nat} (h : n < l) : pendingLen (l :: ls) n = n := by
+  simp [pendingLen, Nat.not_le.mpr h]
+
+theorem pendingLen_drop (lens : List Nat) (k n : Nat) (h : (lens.take k).sum ≤ n) :
+    pendingLen lens n = pendingLen (lens.drop k) (n - (lens.take k).sum) := by
+  induction k generalizing lens n with
+  | zero => simp
+  | succ k ih =>
+    cases lens with
+    | nil => simp
+    | cons l ls =>
+      simp only [List.take_succ_cons, List.sum_cons, List.drop_succ_cons] at h ⊢
+      have hl : l ≤ n := by omega
+      simp only [pendingLen, hl, if_true]
+      rw [ih ls (n - l) (by omega)]
+      congr 1
+      omega
+
+theorem fitsInbox_drop (B : Nat) (lens : List Nat) (k : Nat) :
+    ∀ (cs : List Bytes) (n : Nat), (lens.take k).sum ≤ n → FitsInbox B lens n cs →
+      FitsInbox B (lens.drop k) (n - (lens.take k).sum) cs := by
+  intro cs
+  induction cs with
+  | nil => intro n _ _; trivial
+  | cons c cs ih =>
+    intro n hn hf
+    obtain ⟨h1, h2⟩ := hf
+    refine ⟨by rw [← pendingLen_drop lens k n hn]; exact h1, ?_⟩
+    have := ih (n + c.length) (by omega) h2
+    have e : n + c.length - (lens.take k).sum = n - (lens.take k).sum + c.length := by omega
+    rw [e] at this
+    exact this
+
+theorem length_encAll (e : α → Bytes) (as : List α) : (encAll e as).length = (as.map fun a => (e a).length).sum := by
+  induction as with
+  | nil => rfl
+  | cons a as ih => rw [encAll_cons, List.length_append, ih]; simp
+
+/-- **Chunking independence with the inbox bound (generic).** As `feed_chunks`, for an inbox of ANY size
+`B`: it is enough that every chunk fits together with the undecoded remainder it is appended to. -/
+theorem feed_chunks_bounded_aux {d : Dec α} {e : α → Bytes} (hnil : d [] = .incomplete) (B : Nat) :
+    ∀ (chunks : List Bytes) (as : List α) (buf : Bytes),
+    (∀ a ∈ as, Enc d (e a) a ∧ e a ≠ []) →
+    d buf = .incomplete →
+    buf ++ chunks.flatten = encAll e as →
+    FitsInbox B (as.map fun a => (e a).length) buf.length chunks →
+    ∃ groups, Deser.feed d B ⟨buf⟩ chunks = some (groups, ⟨[]⟩, .more) ∧ groups.flatten = as ∧
+      groups.length = chunks.length := by
+  intro chunks
+  induction chunks with
+  | nil =>
+    intro as buf henc hinc hcat _
+    simp only [List.flatten_nil, List.append_nil] at hcat
+    have has : as = [] := by
+      cases as with
+      | nil => rfl
+      | cons a as =>
+        exfalso
+        rw [encAll_cons] at hcat
+        have := (henc a (by simp)).1.1 (encAll e as)
+        rw [← hcat, hinc] at this
+        cases this
+    subst has
+    simp only [encAll, List.map_nil, List.flatten_nil] at hcat
+    subst hcat
+    exact ⟨[], rfl, rfl, rfl⟩
+  | cons c cs ih =>
+    intro as buf henc hinc hcat hfit
+    simp only [List.flatten_cons] at hcat
+    obtain ⟨hfit1, hfit2⟩ := hfit
+    -- the buffer is the undecoded remainder: a strict prefix of the first encoding
+    have hpend : pendingLen (as.map fun a => (e a).length) buf.length = buf.length := by
+      cases as with
+      | nil => rfl
+      | cons a as' =>
+        simp only [List.map_cons]
+        apply pendingLen_lt
+        rcases Nat.lt_or_ge buf.length (e a).length with h | h
+        · exact h
+        · exfalso
+          rw [encAll_cons] at hcat
+          -- `e a` is a prefix of `buf`, so `d buf` would be `ok`
+          have hpre : e a <+: buf := by
+            have h1 : e a <+: buf ++ (c ++ cs.flatten) := ⟨encAll e as', hcat.symm⟩
+            rcases prefix_append_cases h1 with h2 | ⟨q, hq, _⟩
+            · exact h2
+            · have : buf <+: e a := ⟨q, hq.symm⟩
+              have := this.eq_of_length (by have := this.length_le; omega)
+              rw [this]; exact ⟨[], by simp⟩
+          obtain ⟨t, ht⟩ := hpre
+          have := (henc a (by simp)).1.1 t
+          rw [ht, hinc] at this
+          cases this
+    have hlen : (buf ++ c).length ≤ B := by
+      rw [List.length_append]; omega
+    have hpre : buf ++ c <+: encAll e as := ⟨cs.flatten, by rw [← hcat]; simp⟩
+    obtain ⟨k, p', hdr, hsplit, hinc'⟩ :=
+      drain_prefix hnil as henc (buf ++ c) hpre ((buf ++ c).length + 1) (Nat.lt_succ_self _)
+    have hrest : p' ++ cs.flatten = encAll e (as.drop k) := by
+      have h1 : encAll e as = encAll e (as.take k) ++ encAll e (as.drop k) := by
+        rw [← encAll_append, List.take_append_drop]
+      rw [h1, ← List.append_assoc, hsplit, List.append_assoc] at hcat
+      exact List.append_cancel_left hcat
+    have hsum : ((as.map fun a => (e a).length).take k).sum = (encAll e (as.take k)).length := by
+      rw [length_encAll, List.map_take]
+    have hfit' : FitsInbox B ((as.drop k).map fun a => (e a).length) p'.length cs := by
+      have h1 := fitsInbox_drop B (as.map fun a => (e a).length) k cs (buf.length + c.length)
+        (by rw [hsum, ← List.length_append, hsplit]; simp) hfit2
+      rw [hsum, ← List.length_append, hsplit, ← List.map_drop] at h1
+      simpa using h1
+    obtain ⟨groups, hfeed, hflat, hgl⟩ :=
+      ih (as.drop k) p' (fun x hx => henc x (List.mem_of_mem_drop hx)) hinc' hrest hfit'
+    refine ⟨as.take k :: groups, ?_, ?_, by simp [hgl]⟩
+    · have hin : (Deser.mk buf).input B c = some ⟨buf ++ c⟩ := by
+        simp only [Deser.input, List.length_append] at hlen ⊢
+        rw [if_neg (by omega)]
+      simp only [Deser.feed, hin, drainFuel, hdr, hfeed]
+    · simp [hflat]
+
+theorem feed_chunks_bounded {d : Dec α} {e : α → Bytes} (hnil : d [] = .incomplete)
+    (as : List α) (henc : ∀ a ∈ as, Enc d (e a) a ∧ e a ≠ [])
+    (chunks : List Bytes) (hc : chunks.flatten = encAll e as) (B : Nat)
+    (hB : FitsInbox B (as.map fun a => (e a).length) 0 chunks) :
+    ∃ groups, Deser.feed d B ⟨[]⟩ chunks = some (groups, ⟨[]⟩, .more) ∧ groups.flatten = as ∧
+      groups.length = chunks.length :=
+  feed_chunks_bounded_aux hnil B chunks as [] henc hnil (by simpa using hc) (by simpa using hB)
+
 /-- The buffer never holds more than what was received. -/
 theorem input_length {B : Nat} {s s' : Deser} {c : Bytes} (h : s.input B c = some s') :
     s'.buf.length = s.buf.length + c.length := by
